@@ -83,6 +83,32 @@ def churn_episode(rng):
     return ops
 
 
+def failing_churn_episode(rng):
+    """a long-lived balancer with passive checks: thousands of short-lived backends each fail once and go away (a bad
+    deploy rolled back pod by pod); a backend added afterwards that fails `threshold` times in a row is ejected like the first"""
+    ops = ["lb new round_robin 1 2 30 0 0 0 0 0 0 0 0 0", "lb add keep 1 good"]
+    t, tid = 10**9, 0
+    for i in range(4200):
+        ops.append("lb add pod%d 1 good" % i)
+        # two requests: one of them lands on the pod (round robin over keep + pod) and fails
+        for _ in range(2):
+            tid += 1
+            ops += ["lb begin %d %d - - 10.0.0.1:1" % (tid, t), "lb end %d %d %s" % (tid, t + 1, "500" if _ else "500")]
+            t += 10
+        ops.append("lb remove pod%d" % i)
+    ops += ["lb remove keep", "lb add victim 1 good", "lb add good 1 good"]
+    for _ in range(8):
+        tid += 1
+        ops += ["lb begin %d %d - - 10.0.0.1:1" % (tid, t), "lb end %d %d 500" % (tid, t + 1)]
+        t += 10
+    ops += ["lb list"]          # (no metrics read-back here: the episode is beyond the documented 1000-name metrics cap)
+    for _ in range(4):
+        tid += 1
+        ops += ["lb begin %d %d - - 10.0.0.1:1" % (tid, t), "lb end %d %d 200" % (tid, t + 1)]
+        t += 10
+    return ops
+
+
 def long_window_episode(rng):
     """an ejection window of hours (unhealthy_timeout: 3600 / 86400 are legal): minutes and hours into it the
     listing and the metrics still report the backend as ejected, and no request is sent to it"""
@@ -111,6 +137,37 @@ def front_eject_episodes():
         for f in faults:
             eps.append(["ft new round_robin 0 0 %d 0" % hc] + ["ft req " + f] * 3 + ["ft req ok", "ft close"])
     return eps
+
+
+PROBE_TIMEOUT_EPISODE = ["ft new round_robin 0 0 1 0", "ft req ok", "ft health 1600", "ft wait 2400", "ft req ok",
+                         "ft health 0", "ft wait 3500", "ft req ok", "ft close"]
+
+
+def probe_timeout_oracle(ep, outs):
+    """active probes that get no answer within health_checks.active.timeout (1 s; the backend answers /health after
+    1.6 s) are failed probes: the only backend is ejected — the next request is refused without reaching it —, and it comes
+    back once its probes are answered in time again"""
+    lines = C.op_lines(ep)
+    if lines != PROBE_TIMEOUT_EPISODE:
+        return []
+    reqs = []
+    for l, o in zip(lines, outs):
+        if l.startswith("ft req"):
+            d = dict(t.split("=", 1) for t in o.split(" || ", 1)[-1].split() if "=" in t)
+            reqs.append((d.get("class"), int(d.get("hits", "-1")), int(d.get("at", "0")) - int(d.get("ms", "0"))))
+    if len(reqs) != 3 or reqs[0][0] != "200":
+        return []
+    # the probe sent at the 1 s tick times out at 2 s and ejects the backend until 3 s: the second request must fall
+    # well inside that second (a loaded machine may deliver it late: then the episode says nothing)
+    if not (2150 <= reqs[1][2] - reqs[0][2] <= 2850):
+        return []
+    fails = []
+    if reqs[1][0] != "503" or reqs[1][1] != reqs[0][1]:
+        fails.append("the backend's health probes get no answer within the probe timeout (1 s) and it is still offered traffic: the request was answered %s and %s it" % (
+            reqs[1][0], "reached" if reqs[1][1] != reqs[0][1] else "did not reach"))
+    if reqs[2][0] != "200":
+        fails.append("3.5 s after its probes were answered in time again the backend is still not used: %s" % reqs[2][0])
+    return fails
 
 
 def front_eject_oracle(ep, outs):
@@ -215,13 +272,14 @@ def check(ctx):
     def orc(ep, outs):
         sh_now[0] = 0
         return oracle(ep, outs)
-    episodes = C.load_corpus(ID) + [gen_episode(ctx.rng, ctx.thorough()) for _ in range(nep)] + [churn_episode(ctx.rng)] + [long_window_episode(ctx.rng) for _ in range(4)]
+    episodes = C.load_corpus(ID) + [gen_episode(ctx.rng, ctx.thorough()) for _ in range(nep)] + [churn_episode(ctx.rng)] + [long_window_episode(ctx.rng) for _ in range(4)] + [failing_churn_episode(ctx.rng)]
     bad = d.check(episodes, oracle=orc, label="health")
     from . import c03
     dfe = C.Differential(ctx, c03.build(ctx), timeout=600, project=c03.project, confirm=2)
     fe = front_eject_episodes()
     dfe.check(fe, oracle=front_eject_oracle, label="health-front")
     ctx.cov["front_end_ejection_episodes"] = len(fe)
+    dfe.check_oracle_only([PROBE_TIMEOUT_EPISODE], probe_timeout_oracle, "health-probe-timeout")
     # the windows, thresholds and intervals the state machine runs with are the file's (LoadConfig hands them on as written)
     from .. import cfgfid
     cfgfid.check(ctx, C.Differential(ctx, c03.build(ctx), timeout=300), n=40 if ctx.thorough() else 10)
